@@ -10,7 +10,7 @@ CLAIMS = {
     # id: (technique, level text, level note, design ref)
     "C18": (
         "AST table extraction + own GF(2)[x] arithmetic; closed-form (skeleton/leaf) matching; special-case lint",
-        "Static analysis of algebra.py: every tabulated field modulus literal is decided primitive of its degree by the checker's own bitmask arithmetic; the designated primitive element is a unit in every tabulated field; the operators carrying the field/ring laws match reasoned closed forms; no value-keyed special cases. Decides these structural necessary conditions, not the ring/field laws as value identities.",
+        "Static analysis of algebra.py: every tabulated field modulus literal is decided primitive of its degree by the checker's own bitmask arithmetic; the designated primitive element is a unit in every tabulated field; the operators carrying the field/ring laws match reasoned closed forms; no value-keyed special cases. Decides these structural necessary conditions, not the ring/field laws as value identities. evaluate and lcm are tabulated as well.",
         "Trusted: CPython ast, the checker's gf2.py (cross-checked in the self-test), the reference closed forms listed in props/c18.py. Unknown code shapes give exit 2 (no verdict), never a VIOLATION.",
         "DESIGN.md §2 C18",
     ),
@@ -18,21 +18,21 @@ CLAIMS = {
 
 CLAIMS["C15"] = (
     "polarity abstract interpretation (monotonicity lattice per seed, sign domain, constellation-idiom tags) over every registered soft demodulator and every LLR consumer",
-    "Whole-repository LLR-polarity convention check: the soft branch of every registered demodulator is interpreted abstractly (helpers in context) and its LLR must be decreasing in the distance to the bit-0 points and increasing in the distance to the bit-1 points (closed forms: increasing in the amplitude that carries bit 0); every LLR-mode thresholder path, sign_to_bin/llr_to_bits and every sign-decision site in the soft decoders must be decreasing in the LLR. The domain abstracts the input away, so agreement is decided for all inputs at once. Decides the polarity convention (a necessary condition), not numerical LLR values.",
+    "Whole-repository LLR-polarity convention check: the soft branch of every registered demodulator is interpreted abstractly (helpers in context) and its LLR must be decreasing in the distance to the bit-0 points and increasing in the distance to the bit-1 points (closed forms: increasing in the amplitude that carries bit 0); every LLR-mode thresholder path, sign_to_bin/llr_to_bits and every sign-decision site in the soft decoders must be decreasing in the LLR. The domain abstracts the input away, so agreement is decided for all inputs at once. Decides the polarity convention (a necessary condition), not numerical LLR values. exp(t) / (c + exp(t)) quotients with unclamped t are reported (NaN inside the stated LLR range).",
     "Trusted: the transfer functions of polarity.py for the torch operations met, the positive-parameter table (noise_var, confidence_scaling, weights, normalisation), idioms frozen in DESIGN.md §1.2 (scalar statistic = constant; masked literal stores; vote count == len). Unknown operations reaching an obligation give exit 2, never a VIOLATION.",
     "DESIGN.md §2 C15",
 )
 
 CLAIMS["C17"] = (
     "loop-shape recognisers, stage-provenance abstract interpretation (term domain), order-taint of completion-ordered containers, first-match-returns",
-    "Order/typestate analysis of every pipeline model: sequential containers must be the exact threaded loop over the declared list with arguments forwarded; DeepJSCC/channel-code stage lists are checked by parameter identity; for the multiple-access, Wyner-Ziv and feedback models an abstract interpreter over stage terms computes through which components the result passed and compares it with the declared composition (each stage once, in order, superposition before one constraint and one channel use, exactly max_iterations rounds); in the parallel model a container filled in as_completed() order may reach the aggregator/return only after being rebuilt in declared order; the branching model returns inside the first true condition in registration order. Schedules and inputs do not occur in the argument, so it covers all of them; user callables are not analysed.",
+    "Order/typestate analysis of every pipeline model: sequential containers must be the exact threaded loop over the declared list with arguments forwarded; DeepJSCC/channel-code stage lists are checked by parameter identity; for the multiple-access, Wyner-Ziv and feedback models an abstract interpreter over stage terms computes through which components the result passed and compares it with the declared composition (each stage once, in order, superposition before one constraint and one channel use, exactly max_iterations rounds); in the parallel model a container filled in as_completed() order may reach the aggregator/return only after being rebuilt in declared order; the branching model returns inside the first true condition in registration order. Schedules and inputs do not occur in the argument, so it covers all of them; user callables are not analysed. add_step must append on every non-raising path.",
     "Trusted: provenance.py's treatment of calls (stage attributes/lists named in props/c17.py), dict insertion order and list order semantics of CPython, concurrent.futures.as_completed yielding in completion order. Unknown loop shapes -> exit 2.",
     "DESIGN.md §2 C17",
 )
 
 CLAIMS["C16"] = (
     "accumulator typestate (attribute effect analysis) + sibling agreement by free-term abstract interpretation (forward vs update vs benchmark helpers)",
-    "For BitErrorRate and BlockErrorRate (and the SER/FER aliases): the registered integer buffers are advanced in update() only by += of per-batch quantities that read no accumulator, reset() zeroes exactly those buffers, compute() is errors/max(total,1), forward() writes no state; the per-batch error count and total derived from update() by a free-term abstract interpreter equal those derived from forward() (real and complex branches), and the count is symmetric in its arguments; BLER blocks come from one reshape helper that raises on non-divisible sizes and uses any() over the block axis; the benchmark helpers have the closed forms count(!=)/numel and any-per-block/blocks. This decides partition/order independence and streaming = one-shot structurally (for every history), not float rounding.",
+    "For BitErrorRate and BlockErrorRate (and the SER/FER aliases): the registered integer buffers are advanced in update() only by += of per-batch quantities that read no accumulator, reset() zeroes exactly those buffers, compute() is errors/max(total,1), forward() writes no state; the per-batch error count and total derived from update() by a free-term abstract interpreter equal those derived from forward() (real and complex branches), and the count is symmetric in its arguments; BLER blocks come from one reshape helper that raises on non-divisible sizes and uses any() over the block axis; the benchmark helpers have the closed forms count(!=)/numel and any-per-block/blocks. This decides partition/order independence and streaming = one-shot structurally (for every history), not float rounding. compute() in an unlisted spelling and the benchmark helpers are evaluated on accumulator states / word pairs.",
     "Trusted: terms.py normalisation (casts erased, commutative operands sorted, |a-b| symmetric), torch semantics of sum/any/numel/zero_. Unknown shapes -> exit 2.",
     "DESIGN.md §2 C16",
 )
@@ -46,28 +46,28 @@ CLAIMS["C07"] = (
 
 CLAIMS["C08"] = (
     "scaling-law abstract interpretation (monomial domain, reduced-axes and cross-batch tracking) + closed forms + preservation-table ordering check of the factory composites",
-    "Total/average/per-antenna power constraints: the result is derived to be x*s with s>0 deterministic and s^2*current power = target exactly (literal eps<=1e-6 is the identity), with the current power reduced per item (per antenna) and no statistic across the batch in the factor; the zero-signal substitute has the target power; batched and single-item branches obey the same law. Peak amplitude: every return is the symmetric clamp. PAPR: clipping stores keep the direction v/(|v|+eps); one final clip outside the loop on every path with bound^2 = avg_power*max_papr*c, c<=1. Composites: sequential loop; for every configuration of the OFDM/MIMO factories the derived stage order is checked against a reasoned preservation table. These are necessary structural conditions for all inputs; convergence of iterative clipping and numeric tolerances are not decided.",
+    "Total/average/per-antenna power constraints: the result is derived to be x*s with s>0 deterministic and s^2*current power = target exactly (literal eps<=1e-6 is the identity), with the current power reduced per item (per antenna) and no statistic across the batch in the factor; the zero-signal substitute has the target power; batched and single-item branches obey the same law. Peak amplitude: every return is the symmetric clamp. PAPR: clipping stores keep the direction v/(|v|+eps); one final clip outside the loop on every path with bound^2 = avg_power*max_papr*c, c<=1. Composites: sequential loop; for every configuration of the OFDM/MIMO factories the derived stage order is checked against a reasoned preservation table. These are necessary structural conditions for all inputs; convergence of iterative clipping and numeric tolerances are not decided. The PAPR projection is evaluated (own arithmetic) on dense real / complex / 2-D signals for limits 1.1 .. 4: output PAPR <= limit, every sample scaled by a real factor in [0, 1], the map commutes with rescaling the input, every branch and loop body entered; the structural PAPR rules are the fallback.",
     "Trusted: scaling.py transfer functions, the preservation table in props/c08.py (each entry reasoned), torch reshape/sum/mean/clamp semantics. Findings recorded in known_findings.json (factory orderings pinned by the suite or not repairable by ordering).",
     "DESIGN.md §2 C08",
 )
 
 CLAIMS["C12"] = (
     "structural dataflow rules (Bernoulli idiom, masked stores), finite truth-table evaluation of the {0,1}/{-1,+1} maps, may-alias/effect analysis",
-    "Binary symmetric / erasure / Z channels: every flip/erase indicator is `U < p` with U from rand/rand_like and p the configured, validated probability (strictness and direction checked, so p = 0 is the identity and p = 1 the extreme); the BSC output expression has the XOR truth table over {0,1}^2; Z-channel stores are masked by x == 1 and write where(event, 0, old); BEC stores only the erasure symbol under the erase mask into a clone; the bipolar conversions map -1/+1 to 0/1 and back under one flag; an alias/effect analysis shows no write reaches storage shared with the input. Decides the support/transition structure for every input; rates and independence are statistics and are not decided.",
+    "Binary symmetric / erasure / Z channels: every flip/erase indicator is `U < p` with U from rand/rand_like and p the configured, validated probability (strictness and direction checked, so p = 0 is the identity and p = 1 the extreme); the BSC output expression has the XOR truth table over {0,1}^2; Z-channel stores are masked by x == 1 and write where(event, 0, old); BEC stores only the erasure symbol under the erase mask into a clone; the bipolar conversions map -1/+1 to 0/1 and back under one flag; an alias/effect analysis shows no write reaches storage shared with the input. Decides the support/transition structure for every input; rates and independence are statistics and are not decided. Since seed round 6 the transition clause is decided first by evaluating forward (own arithmetic, class helpers followed, constructor attributes carried from call to call) on two-block histories - {0,1} and -1/+1 blocks in every order on one object, p = 0, 0.5, 1, fixed table of uniform draws, both exact spellings U < p / U >= 1 - p; the spelling rules are the fallback.",
     "Trusted: torch.rand* samples lie in [0,1); clone()/arithmetic allocate, float()/view/indexing may alias; closed forms listed in props/c12.py.",
     "DESIGN.md §2 C12",
 )
 
 CLAIMS["C13"] = (
     "scaling-law abstract interpretation with opaque atoms (gain normalisation), closed forms (block structure), free-term interpretation of forward()",
-    "FlatFadingChannel: the coefficient generator is interpreted over the monomial domain - Rayleigh total variance 1; Rician |LOS|^2*(K+1) = K and Var(scatter)*(K+1) = 1 (unit mean-square gain, LOS/scatter = K for every K); ceil(L/T) blocks, draws of shape (batch, blocks), expansion index arange(L)//T per batch row; forward() is derived as a term: with csi and noise supplied exactly csi*x + noise with the input's shape restored on the 1-D, 2-D and >2-D paths, otherwise h = expand(generate(...)); the noise stage follows the C07 law calibrated on the faded signal. Structural/algebraic necessary conditions for all K, T, L and shapes; independence and gain statistics are not decided.",
+    "FlatFadingChannel: the coefficient generator is interpreted over the monomial domain - Rayleigh total variance 1; Rician |LOS|^2*(K+1) = K and Var(scatter)*(K+1) = 1 (unit mean-square gain, LOS/scatter = K for every K); ceil(L/T) blocks, draws of shape (batch, blocks), expansion index arange(L)//T per batch row; forward() is derived as a term: with csi and noise supplied exactly csi*x + noise with the input's shape restored on the 1-D, 2-D and >2-D paths, otherwise h = expand(generate(...)); the noise stage follows the C07 law calibrated on the faded signal. Structural/algebraic necessary conditions for all K, T, L and shapes; independence and gain statistics are not decided. The FORWARD clause is decided first by evaluating forward on eight successive calls of different ranks on one object (supplied and generated channel state); the free-term rule is the fallback.",
     "Trusted: scaling.py / terms.py transfer functions, randn unit variance, torch integer floor-division semantics.",
     "DESIGN.md §2 C13",
 )
 
 CLAIMS["C06"] = (
     "polarity abstract interpretation (LLR sign, nearest-point reductions and argmin sites), homogeneity-degree interpretation (LLR scale), branch read-set agreement, special-case lint",
-    "For every registered demodulator: the soft output is decreasing in the distance to the bit-0 subset and increasing in the distance to the bit-1 subset with nearest-point reductions (closed forms: matching the modulator's amplitude map); it has homogeneity degree -1 in the noise variance (scalar or per-symbol) and degree 2 in distance where derivable; every hard-branch argmin/argmax site is the argmin of a monotone distance to the whole constellation (or the matching sign decision); hard and soft branches read the same constellation and label table; no device/value-keyed perturbation of the metric. These conditions are necessary for 'nearest point' and 'correctly signed, 1/noise_var-scaled LLR' on every input; the numerical max-log value and ties are not decided.",
+    "For every registered demodulator: the soft output is decreasing in the distance to the bit-0 subset and increasing in the distance to the bit-1 subset with nearest-point reductions (closed forms: matching the modulator's amplitude map); it has homogeneity degree -1 in the noise variance (scalar or per-symbol) and degree 2 in distance where derivable; every hard-branch argmin/argmax site is the argmin of a monotone distance to the whole constellation (or the matching sign decision); hard and soft branches read the same constellation and label table; no device/value-keyed perturbation of the metric. These conditions are necessary for 'nearest point' and 'correctly signed, 1/noise_var-scaled LLR' on every input; the numerical max-log value and ties are not decided. The pi/4-QPSK soft branch is tabulated noise-free on alternating sequences; a soft minimum (logsumexp) over the candidate points is reported as log-MAP instead of max-log.",
     "Trusted: polarity.py / degree.py transfer functions; idioms: circular phase distance abs((a-b+pi)%2pi-pi), literal regularisers <= 1e-6.",
     "DESIGN.md §2 C06",
 )
@@ -81,7 +81,7 @@ CLAIMS["C14"] = (
 
 CLAIMS["C01"] = (
     "closed-form / operand analysis of the encode and syndrome forms, MRO enumeration of overrides, verified-return (must-pass-through) rule on the null-space helpers, index-set def-use agreement, dead-branch (T-str) and special-case lint, information-set dependence",
-    "Decides structural necessary conditions of 'encoder, G and H describe one code': forward() multiplies each block by the published generator_matrix mod 2 (right operand, no transpose, block size k) and calculate_syndrome by check_matrix transposed (block size n); every subclass override is enumerated through the MRO and must be an analysed conforming form; the systematic generator and the systematic forward() use one index computation (scatter to information/parity sets; gather-with-the-forward-permutation and value-keyed shortcuts are violations); check-matrix overrides lay I on the parity set and P^T on the information set and contain no tensor==string dead branch; every return of compute_null_space_matrix is an exact GF(2) elimination result or a verified object, never a constant fallback; the LDPC generator is cut at the rank; no class re-registers matrices that ignore its information set. Rank/null-space equality as numbers is not decided.",
+    "Decides structural necessary conditions of 'encoder, G and H describe one code': forward() multiplies each block by the published generator_matrix mod 2 (right operand, no transpose, block size k) and calculate_syndrome by check_matrix transposed (block size n); every subclass override is enumerated through the MRO and must be an analysed conforming form; the systematic generator and the systematic forward() use one index computation (scatter to information/parity sets; gather-with-the-forward-permutation and value-keyed shortcuts are violations); check-matrix overrides lay I on the parity set and P^T on the information set and contain no tensor==string dead branch; every return of compute_null_space_matrix is an exact GF(2) elimination result or a verified object, never a constant fallback; the LDPC generator is cut at the rank; no class re-registers matrices that ignore its information set. Rank/null-space equality as numbers is not decided. The buffers describing one code (generator and check matrix; for C04 generator and right inverse) must share one persistence.",
     "Trusted: the recognisers in props/c01.py and fecrules.py (unknown shapes -> exit 2), torch matmul/indexing semantics.",
     "DESIGN.md §2 C01",
 )
@@ -94,14 +94,14 @@ CLAIMS["C04"] = (
 
 CLAIMS["C03"] = (
     "literal table extraction + own GF(2) arithmetic (codeword enumeration, polynomial division, cyclotomic cosets), closed-form matching of advertised formulas, def-use dependence of the extension column, layout (degree) reasoning for the cyclic parity slice",
-    "Constants and formulas behind the advertised (n, k, d): the literal Golay parity submatrix is enumerated by the checker (d = 7, perfect, weight enumerator; extension column evaluated from the source expression gives d = 8) and compared with the advertised values; every tabulated cyclic / BCH / RS standard code is validated against its name (divisibility of X^n+1, n - deg g = k, textbook distance, cyclotomic-coset dimension, Bose distance); the advertised closed forms of Hamming, Reed-Muller, repetition, SPC, BCH and code_rate are matched; the extension column must depend on the row sums; Hamming parity rows enumerate all weight>=2 tuples; the cyclic parity slice is the parity columns [0, n-k) of the systematic generator for every information set; no distance method may advertise an upper bound. True distances of constructed (non-tabulated) codes are not decided.",
+    "Constants and formulas behind the advertised (n, k, d): the literal Golay parity submatrix is enumerated by the checker (d = 7, perfect, weight enumerator; extension column evaluated from the source expression gives d = 8) and compared with the advertised values; every tabulated cyclic / BCH / RS standard code is validated against its name (divisibility of X^n+1, n - deg g = k, textbook distance, cyclotomic-coset dimension, Bose distance); the advertised closed forms of Hamming, Reed-Muller, repetition, SPC, BCH and code_rate are matched; the extension column must depend on the row sums; Hamming parity rows enumerate all weight>=2 tuples; the cyclic parity slice is the parity columns [0, n-k) of the systematic generator for every information set; no distance method may advertise an upper bound. True distances of constructed (non-tabulated) codes are not decided. The Reed-Muller generator is evaluated for every 0 <= r < m <= 5 (rank and span of the monomials of degree <= r), BinaryPolynomial.lcm is tabulated.",
     "Trusted: gf2.py (cross-checked against known codes in the self-test), recognisers of the construction code (unknown shapes -> exit 2).",
     "DESIGN.md §2 C03",
 )
 
 CLAIMS["C02"] = (
     "special-case lint with input/row-index taint, loop-bound and insertion-guard recognisers (coset-leader minimality), closed forms of the ML decision and of the Berlekamp-Massey / Chien / Hamming steps",
-    "Structural necessary conditions of 'hard-decision decoders correct <= t errors / complete decoders are ML': no decoder or encoder inverse branches on equality of the syndrome, the received length, the field size or the batch row index with a literal (row index only as subscript); the syndrome table is built by ascending weight over exhaustive supports with first-come insertion from the decoder's own encoder, corrections XOR the leader and messages are extracted by the encoder; the brute-force decoder enumerates all 2^k messages through the encoder and takes the argmin Hamming distance with message and codeword at the same index; Berlekamp-Massey takes t and the field from the encoder, evaluates S_1..S_2t, searches all n positions and flips exactly the located bits; the Hamming inverse locates the check-matrix column equal to the syndrome. Whether the algebraic algorithms actually correct every pattern of weight <= t is behaviour over field values and is not decided (the Reed-Muller majority decoder is a placeholder).",
+    "Structural necessary conditions of 'hard-decision decoders correct <= t errors / complete decoders are ML': no decoder or encoder inverse branches on equality of the syndrome, the received length, the field size or the batch row index with a literal (row index only as subscript); the syndrome table is built by ascending weight over exhaustive supports with first-come insertion from the decoder's own encoder, corrections XOR the leader and messages are extracted by the encoder; the brute-force decoder enumerates all 2^k messages through the encoder and takes the argmin Hamming distance with message and codeword at the same index; Berlekamp-Massey takes t and the field from the encoder, evaluates S_1..S_2t, searches all n positions and flips exactly the located bits; the Hamming inverse locates the check-matrix column equal to the syndrome. Whether the algebraic algorithms actually correct every pattern of weight <= t is behaviour over field values and is not decided (the Reed-Muller majority decoder is a placeholder). The syndrome-lookup decoder's forward is evaluated on every codeword of the (7,4) Hamming code with 0 / 1 flipped bit, the Berlekamp-Massey decoder's forward over GF(16) on codewords of the (15,7) BCH code with 0, 1, 2 flipped bits, the error-pattern generator for n = 4..6 and every weight.",
     "Trusted: recognisers in props/c02.py (unknown shapes -> exit 2).",
     "DESIGN.md §2 C02",
 )
@@ -129,14 +129,14 @@ CLAIMS["C19"] = (
 
 CLAIMS["C10"] = (
     "structural typestate of the Tanner-graph bookkeeping (join-last-group rule), closed-form matching with own-arithmetic evaluation of each update on literal points, tensor-rank inference (extrinsic axis reduced, never flattened), homogeneity-degree abstract interpretation (no saturation on the min-sum / Wagner decision paths), list-subscript lint",
-    "Belief propagation, min-sum, Wagner and soft Reed-Muller decoders: degree groups in prep_edge_ind are runs of consecutive nodes (a node joins only the last group, the group key is the previous node's degree), so per-group messages concatenate in the node order that edge_order/cv_order assume; extrinsic sets are all (deg-1)-subsets of a node's edges, row-aligned by the flip; vc = posterior - cv, tanh(vc/2), product over the extrinsic axis, 2*atanh, marginal = channel LLR + incoming messages (schedule vc -> cv -> marginalise(channel input)), message bits at the weight-1 columns of G; min-sum = prod(sign)*min(abs) reduced over the extrinsic axis with rank-2 per-group results (rank inference), scaling/offset only under their configuration guards; min-sum messages are homogeneous of degree 1 inside the family's declared clipping range and nothing saturates the Wagner decision path; Wagner = sign decisions, even-parity test, flip of argmin|llr| of the failing block, first k positions; RM soft = per-group parity, minimum reliability, reliability-weighted vote. Decides these structural conditions, not marginals/ML optimality as values.",
+    "Belief propagation, min-sum, Wagner and soft Reed-Muller decoders: degree groups in prep_edge_ind are runs of consecutive nodes (a node joins only the last group, the group key is the previous node's degree), so per-group messages concatenate in the node order that edge_order/cv_order assume; extrinsic sets are all (deg-1)-subsets of a node's edges, row-aligned by the flip; vc = posterior - cv, tanh(vc/2), product over the extrinsic axis, 2*atanh, marginal = channel LLR + incoming messages (schedule vc -> cv -> marginalise(channel input)), message bits at the weight-1 columns of G; min-sum = prod(sign)*min(abs) reduced over the extrinsic axis with rank-2 per-group results (rank inference), scaling/offset only under their configuration guards; min-sum messages are homogeneous of degree 1 inside the family's declared clipping range and nothing saturates the Wagner decision path; Wagner = sign decisions, even-parity test, flip of argmin|llr| of the failing block, first k positions; RM soft = per-group parity, minimum reliability, reliability-weighted vote. Decides these structural conditions, not marginals/ML optimality as values. The Tanner-graph tables of prep_edge_ind are tabulated on four parity-check matrices against their definitions, soft Reed-Muller decoding is evaluated on real words with checker-chosen partitions.",
     "Trusted: itertools.combinations order (lexicographic), torch gather/min/prod/flip semantics as summarised in props/c10.py, the checker's constant folder for the literal-point evaluations. Unknown shapes -> exit 2.",
     "DESIGN.md §2 C10",
 )
 
 CLAIMS["C05"] = (
     "table-index provenance rules per registered modulator/demodulator pair (search / inverse-map / natural-binary idioms), tabulation of the bit-group -> index kernel for all 2^b groups with the checker's own arithmetic (fragment evaluator over the syntax tree), constant folding of literal label tables, sign-composition on {0,1}, typestate of the memory buffers, enumeration of guards on valid bit inputs",
-    "For the 11 registered pairs: the modulator's bit group -> point index map and the demodulator's nearest index -> bits map go through the same point table and label table by the same index (QAM/PAM search idiom), or through a map built as the inverse of the label table (PSK), or through the natural-binary integer with a label table whose row i is binary(i) in every configuration (QPSK, DPSK, pi/4-QPSK); the integer kernel is MSB-first for all 2^b groups; a block-wise nearest-point search must cover every symbol; BPSK/OQPSK amplitude and sign test compose to the identity; bits are grouped by log2(order) behind a divisibility error and the reference modulator receives the demodulator's own parameters; state is written only in training mode, reset_state restores the registered initial value, DPSK encodes y[i]=y[i-1]*shift and detects y[1:]*conj(y[:-1]), OQPSK delays only the quadrature rail, pi/4-QPSK alternates identically on both sides; every hard-branch return is a bit tensor; no valid bit input (all 1-2 symbol inputs, 1-D and batched) reaches a path that re-reads the argument as symbol indices. Three recorded findings (DPSK Gray index, pi/4-QPSK 1-D index output and short 1-D inputs read as indices) are pinned by the test suite.",
+    "For the 11 registered pairs: the modulator's bit group -> point index map and the demodulator's nearest index -> bits map go through the same point table and label table by the same index (QAM/PAM search idiom), or through a map built as the inverse of the label table (PSK), or through the natural-binary integer with a label table whose row i is binary(i) in every configuration (QPSK, DPSK, pi/4-QPSK); the integer kernel is MSB-first for all 2^b groups; a block-wise nearest-point search must cover every symbol; BPSK/OQPSK amplitude and sign test compose to the identity; bits are grouped by log2(order) behind a divisibility error and the reference modulator receives the demodulator's own parameters; state is written only in training mode, reset_state restores the registered initial value, DPSK encodes y[i]=y[i-1]*shift and detects y[1:]*conj(y[:-1]), OQPSK delays only the quadrature rail, pi/4-QPSK alternates identically on both sides; every hard-branch return is a bit tensor; no valid bit input (all 1-2 symbol inputs, 1-D and batched) reaches a path that re-reads the argument as symbol indices. Three recorded findings (DPSK Gray index, pi/4-QPSK 1-D index output and short 1-D inputs read as indices) are pinned by the test suite. The forward methods of the PSK / QPSK / OQPSK / DPSK / pi/4-QPSK modulators and of the pi/4-QPSK demodulator are evaluated as wholes (bit blocks of rank 1-3, both states, training and evaluation mode) where the kernel spellings are not the listed ones.",
     "Trusted: constfold/frag evaluation of the index kernels and guards (no repository code runs), C14's label-generator recogniser, torch argmin / advanced indexing semantics. Nearest-point arithmetic is C06's, table bijectivity C14's. Unknown shapes -> exit 2.",
     "DESIGN.md §2 C05",
 )
